@@ -237,7 +237,8 @@ def coupled_shard(shard):
 def events_shard(_):
     acc = core.Acc()
     n = specs.lib()
-    menu = [("None", None, None), ("int", 5, None), ("float", 1.5, None), ("object", object(), None)]
+    menu = [("None", None, None), ("int", 5, None), ("float", 1.5, None), ("object", object(), None),
+            ("0d-f4-array", np.array(5.0, "<f4"), None), ("0d-f8-array", np.array(5.0), None), ("numpy-scalar", np.float32(2.0), None)]
     for k in range(0, 4):
         vals = [0.5 + j for j in range(k)]
         menu += [(f"list{k}", list(vals), k), (f"tuple{k}", tuple(vals), k), (f"f4array{k}", np.array(vals, "<f4"), k),
@@ -277,6 +278,25 @@ def events_shard(_):
                 acc.outcomes["event:accepted"] += 1
             else:
                 acc.outcomes["event:refused"] += 1
+            acc.n["traces"] += 1
+    # an Event object with several values and the single kind must not come into existence by decoding either
+    for k in (2, 3):
+        acc.n["states"] += 1
+        acc.n["evaluations"] += 1
+        acc.n["nontrivial"] += 1
+        acc.n["transitions"] += 1
+        data = R.encode_block(gen.events([gen.mk_event("ok", 1, 1), {"label": "bad", "etype": 0, "values": gen.filler((k,), 3)}]))
+        wit = {"event": f"decoded-single-{k}", "etype": 0}
+        try:
+            blk = specs.lib_decode(R.T_EVENTS, 1, data)[0]
+            bad = [e for e in blk if getattr(e.type, "value", e.type) == 0 and len(e) > 1]
+        except Exception:  # noqa: BLE001
+            bad = []
+        if bad:
+            acc.violation("single-event-with-many-values-accepted", f"{PROP}:Event:single-event-with-many-values-accepted:decoded", wit,
+                          f"decoding an events block yields a single (non-sequence) Event object holding {len(bad[0])} values")
+        else:
+            acc.outcomes["event:decoded-single-many:refused"] += 1
             acc.n["traces"] += 1
     acc.sample({"events": [m[0] for m in menu], "kinds": ["single", "sequence"]}, 1)
     return acc
